@@ -443,7 +443,7 @@ def run(tape, prop, tier):
         try:
             await d.run(stop_signals=[])
             out["o"] = "returned"
-        except Exception as e_:
+        except (Exception, asyncio.CancelledError) as e_:
             out["o"] = f"raised {type(e_).__name__}: {e_}"
         dt_.cancel()
         await sess.close()
